@@ -91,3 +91,109 @@ Definition chain_text (n : nat) : str := chain_from n 0.
 Definition is_recursion_error (r : result schema) : bool :=
   match r with PyExn RecursionError => true | _ => false end.
 Definition is_ok (r : result schema) : bool := match r with Ok _ => true | _ => false end.
+
+(* ------------------------------------------------------------------ rules enforced by _validate *)
+
+Definition group_named (s : schema) (n : str) (g : group) : Prop := In g (s_groups s) /\ g_name g = n.
+Definition enum_named (s : schema) (n : str) (e : enum) : Prop := In e (s_enums s) /\ en_name e = n.
+Definition element_named (s : schema) (n : str) (e : element) : Prop := In e (s_elements s) /\ e_name e = n.
+
+(* member lists of all containers (groups, then elements) *)
+Definition containers (s : schema) : list (list member) :=
+  map g_members (s_groups s) ++ map e_members (s_elements s).
+
+(* the `use` graph on group names *)
+Definition use_edge (s : schema) (a b : str) : Prop :=
+  exists g l, group_named s a g /\ In (MUse b l) (g_members g).
+Inductive use_path (s : schema) : str -> str -> Prop :=
+| up_edge : forall a b, use_edge s a b -> use_path s a b
+| up_step : forall a b c, use_edge s a b -> use_path s b c -> use_path s a c.
+
+(* attributes of a member list with `use` groups expanded, in declaration order *)
+Inductive expands (s : schema) : list member -> list attr -> Prop :=
+| ex_nil : expands s [] []
+| ex_attr : forall a r l, expands s r l -> expands s (MAttr a :: r) (a :: l)
+| ex_use : forall n ln g r l1 l2, group_named s n g -> expands s (g_members g) l1 -> expands s r l2 ->
+                                  expands s (MUse n ln :: r) (l1 ++ l2)
+| ex_child : forall n c d ln r l, expands s r l -> expands s (MChild n c d ln :: r) l
+| ex_const : forall f v d ln r l, expands s r l -> expands s (MConst f v d ln :: r) l
+| ex_con : forall k bs d ln r l, expands s r l -> expands s (MCon k bs d ln :: r) l.
+
+Definition names_in (bundles : list (list str)) (names : list str) : Prop :=
+  forall b x, In b bundles -> In x b -> In x names.
+
+Definition direct_attr_names (ms : list member) : list str := map a_name (member_attrs ms).
+Definition child_names (ms : list member) : list str :=
+  flat_map (fun m => match m with MChild n _ _ _ => [n] | _ => [] end) ms.
+
+Definition group_rules (s : schema) (g : group) : Prop :=
+  (* constraints of a group name attributes declared directly in it *)
+  (forall k bs d l, In (MCon k bs d l) (g_members g) -> names_in bs (direct_attr_names (g_members g))) /\
+  (* a variant group has no `use` and no required attribute *)
+  (g_variant g = true ->
+   (forall n l, ~ In (MUse n l) (g_members g)) /\
+   (forall a, In (MAttr a) (g_members g) -> truthy (fget (a_facets a) f_required) = false)).
+
+Definition element_rules (s : schema) (e : element) : Prop :=
+  (* xml and alias facets carry a name; the alias names a declared element *)
+  (forall k v, (k = f_xml \/ k = f_alias) -> fget (e_facets e) k = Some v -> exists n, v = FStr n) /\
+  (forall n, fget (e_facets e) f_alias = Some (FStr n) -> exists e', element_named s n e') /\
+  (* children: declared, each at most once *)
+  (forall n c d l, In (MChild n c d l) (e_members e) -> exists e', element_named s n e') /\
+  NoDup (child_names (e_members e)) /\
+  (* attributes after group expansion: no duplicates; constraints name them; requires a b *)
+  (exists attrs, expands s (e_members e) attrs /\ NoDup (map a_name attrs) /\
+     forall k bs d l, In (MCon k bs d l) (e_members e) ->
+       names_in bs (map a_name attrs) /\ (k = CRequires -> exists a b, bs = [[a]; [b]])).
+
+Definition scalar_arity (a : arity) : Prop := a = Arity 1 (HiInt 1).
+
+(* defaults agree with type and arity *)
+Definition default_rules (s : schema) (a : attr) : Prop :=
+  match a_default a with
+  | DNone => True
+  | d =>
+    match a_type a with
+    | TEnum => exists kw t e, d = DStr kw /\ a_target a = Some t /\ enum_named s t e /\ In kw (map fst (en_items e))
+    | TRef | TId | TChars => False
+    | TBool => d = DStr k_true \/ d = DStr k_false
+    | TString | TFile => exists x, d = DStr x
+    | TDouble | TFloat | TInt | TFlags =>
+      (exists f, d = DNum f /\ (alo (a_arity a) <= 1)%Z /\ forall h, ahi (a_arity a) = HiInt h -> (1 <= h)%Z) \/
+      (exists l, d = DTuple l /\ ~ scalar_arity (a_arity a) /\ (alo (a_arity a) <= Z.of_nat (List.length l))%Z /\
+                 forall h, ahi (a_arity a) = HiInt h -> (Z.of_nat (List.length l) <= h)%Z)
+    end
+  end.
+
+Definition attr_rules (s : schema) (a : attr) : Prop :=
+  (* no dangling enum / namespace references *)
+  ((a_type a = TEnum \/ a_type a = TFlags) -> exists t e, a_target a = Some t /\ enum_named s t e) /\
+  (a_type a = TRef -> exists ms b, In ms (containers s) /\ In (MAttr b) ms /\ a_type b = TId /\ a_target b = a_target a) /\
+  (* arity restrictions *)
+  ((a_type a = TFile \/ a_type a = TBool) -> scalar_arity (a_arity a)) /\
+  (a_type a = TChars -> exists h, ahi (a_arity a) = HiInt h) /\
+  (* facet payloads *)
+  (fhas (a_facets a) f_pattern = true -> a_type a = TString \/ a_type a = TChars) /\
+  (forall k v, (k = f_min \/ k = f_max) -> fget (a_facets a) k = Some v ->
+               is_numeric (a_type a) = true /\ exists x, fnum_of v = Some x) /\
+  (forall vmin vmax x y, fget (a_facets a) f_min = Some vmin -> fget (a_facets a) f_max = Some vmax ->
+                         fnum_of vmin = Some x -> fnum_of vmax = Some y -> sf_gtb x y = false) /\
+  (truthy (fget (a_facets a) f_positive) = true -> is_numeric (a_type a) = true) /\
+  (truthy (fget (a_facets a) f_required) = true -> a_default a = DNone) /\
+  default_rules s a.
+
+(* the documented rules checked by _validate *)
+Definition schema_rules (s : schema) : Prop :=
+  (* no dangling use, no use cycle *)
+  (forall ms n l, In ms (containers s) -> In (MUse n l) ms -> exists g, group_named s n g) /\
+  (forall n, ~ use_path s n n) /\
+  Forall (group_rules s) (s_groups s) /\
+  Forall (element_rules s) (s_elements s) /\
+  (forall ms a, In ms (containers s) -> In (MAttr a) ms -> attr_rules s a).
+
+(* everything an accepted schema satisfies *)
+Definition WellFormed (s : schema) : Prop := schema_syn s /\ schema_rules s.
+
+(* first loop of _validate: the cycle check of every group, in declaration order *)
+Definition cycle_step (rl : nat) (groups : list group) : vres :=
+  vfor (fun g => check_cycle groups rl (g_name g) [] (g_line g)) groups.
